@@ -16,7 +16,7 @@ LEVEL = 'exploration'
 TITLE = 'Structured Append sequences reassemble to the original message'
 RULE = ('content families {digits, alphanumeric, latin-1 text, bytes, kanji text, mixed-width text, int, UTF-8-only text} x ALL lengths '
         '1..16 x capacity + 2 for version 1 (each level, boost on/off for L) and lengths around every multiple of the per-symbol capacity '
-        'for larger versions; symbol_count 1..16 x lengths 1..64; each symbol decoded, header/parity/payload/count/version contracts checked. '
+        'for larger versions; symbol_count 1..16 x lengths 1..64 and lengths that fill k symbols of each version exactly (+-2); each symbol decoded, header/parity/payload/count/version contracts checked. '
         'non-trivial = a sequence was returned and every symbol decoded')
 BOUNDS = {'quick': 'version 1 all lengths; version 2 around multiples; symbol_count 1..16 x lengths 1..64',
           'thorough': 'versions 1-3 all lengths; 10, 27, 40 around multiples of the capacity; symbol_count x lengths 1..400'}
@@ -91,6 +91,8 @@ def gen_cases(tier):
                 yield ('vermult', fam, v, lvl)
         for sc in range(1, 17):
             yield ('cnt', fam, sc, 1, 64 if q else 400)
+        for v in (range(1, 7) if q else range(1, 41)):
+            yield ('cntbnd', fam, v)
     yield ('misc',)
 
 
@@ -162,22 +164,31 @@ def check_seq(content, kw, acc, fam):
         mode = seq[0].mode
         nchars = len(exp) // (2 if mode in ('kanji', 'hanzi') else 1)     # the count is estimated from the encoded message
         v, lvl = kw['version'], kw.get('error') or 'L'
-        if mode is not None and n == defective_estimate(nchars, v, lvl, mode, kw.get('eci', False), False) \
-                and all(q.error == lvl or kw.get('boost_error', True) for q in seq):
-            chunk = -(-nchars // n)
-            need = 20 + 4 + T.cci_bits(mode, v) + T.payload_bits(mode, chunk)
-            # every symbol must hold (the beginning of) its chunk of the even split, cut only where the capacity ends
+        boost = kw.get('boost_error', True)
+        if mode is not None and n == defective_estimate(nchars, v, lvl, mode, kw.get('eci', False), False):
+            # every symbol must hold (the beginning of) its chunk of the even split, cut only where the capacity of the REQUESTED level
+            # ends; symbols whose chunk fits must be complete and carry exactly the level the boosting rule gives
             cs = 2 if mode in ('kanji', 'hanzi') else 1
             k_, m_ = divmod(nchars, n)
             chunks = [exp[(i * k_ + min(i, m_)) * cs:((i + 1) * k_ + min(i + 1, m_)) * cs] for i in range(n)]
-            fit = per_symbol_chars(v, seq[0].error, mode)
+            fit = per_symbol_chars(v, lvl, mode)
             good = len(pieces) == n
-            for (got, was_cut), ch in zip(pieces, chunks):
-                if was_cut:
-                    good = good and ch.startswith(got) and len(ch) > len(got) >= (fit - 3) * cs
+            any_over = False
+            for (got, was_cut), ch, q in zip(pieces, chunks, seq):
+                need = 20 + 4 + T.cci_bits(mode, v) + T.payload_bits(mode, len(ch) // cs)
+                if need > T.data_bits(v, lvl):
+                    any_over = True
+                    good = good and was_cut and q.error == lvl and ch.startswith(got) and len(ch) > len(got) >= (fit - 3) * cs
                 else:
-                    good = good and got == ch
-            if need > T.data_bits(v, seq[0].error) and good:
+                    want = lvl
+                    if boost:
+                        for cand in ('M', 'Q', 'H')[('L', 'M', 'Q', 'H').index(lvl):]:
+                            if need <= T.data_bits(v, cand):
+                                want = cand
+                            else:
+                                break
+                    good = good and not was_cut and got == ch and q.error == want
+            if any_over and good:
                 known = 'sa-version-path-underestimated-symbol-count'
     acc.eval(case, nontrivial=True, outcome=(n, tuple(v[0] for v in viol)), state=(fam, path, n, kw.get('version'), kw.get('error')))
     acc.sample({'family': fam, 'chars': len(str(content)), 'kw': kw, 'symbols': n, 'designators': [q.designator for q in seq][:3]})
@@ -215,6 +226,26 @@ def run_case(case, acc):
             if n > 64 and n % 7 and sc not in (2, 16):
                 continue
             check_seq(content_of(fam, n), {'symbol_count': sc}, acc, fam)
+    elif kind == 'cntbnd':
+        _, fam, v = case
+        mode = FAM_MODE[fam]
+        for lvl in ('L', 'H'):
+            per = per_symbol_chars(v, lvl, mode)
+            if per < 1 or (fam == 'int' and per * 3 > 4000):
+                continue
+            for sc in (2, 3, 16):
+                if sc * per > 7000 and sc == 16:
+                    continue
+                for d in (-1, 0, 1, 2):
+                    n = sc * per + d
+                    if fam == 'int' and n > 4000:
+                        continue            # CPython refuses int <-> str conversion beyond 4300 digits
+                    if n >= sc:
+                        for boost in (True, False):
+                            kw = {'symbol_count': sc, 'error': lvl}
+                            if not boost:
+                                kw['boost_error'] = False
+                            check_seq(content_of(fam, n), kw, acc, fam)
     elif kind == 'misc':
         for fam in ('latin', 'utf8', 'kanji'):
             for n in (10, 40, 100):
